@@ -21,6 +21,8 @@ def is_concrete(v, depth=0):
     if isinstance(v, (list, tuple, set, frozenset)):
         return all(is_concrete(x, depth + 1) for x in v)
     if isinstance(v, dict):
+        if getattr(v, 'sym', None):
+            return False
         return all(is_concrete(k, depth + 1) and is_concrete(x, depth + 1) for k, x in v.items())
     if isinstance(v, (bytearray, memoryview)):
         return True
@@ -249,6 +251,8 @@ def str_len(ctx, s):
 def truthy(ctx, v):
     if v is None:
         return False
+    if type(v).__name__ == 'HDict':
+        return v.total() > 0
     if isinstance(v, (bool, int, float, str, bytes, bytearray, list, tuple, dict, set, frozenset)):
         return bool(v)
     if is_symbool(v):
@@ -310,7 +314,36 @@ def compare(ctx, op, a, b):
         sa, sb = segs_of(a), segs_of(b)
         if len(sa) == 1 and len(sb) == 1 and all(isinstance(s, int) or is_symint(s) for s in sa + sb):
             return compare(ctx, op, sa[0], sb[0])
+        lt = str_lt(ctx, a, b) if op in ('Lt', 'GtE') else str_lt(ctx, b, a)
+        if op in ('Lt', 'Gt'):
+            return lt
+        return simp(z3.Not(lt))
     raise Unsupported("compare %s on %s and %s" % (op, type(a).__name__, type(b).__name__))
+
+
+def str_lt(ctx, a, b):
+    """a < b on opaque strings: an uninterpreted strict total order (axioms instantiated on the terms involved)"""
+    if isinstance(a, str) and isinstance(b, str):
+        return a < b
+    ctx.assumed_models.add("string ordering of opaque names: an arbitrary strict total order (consistent on concrete strings)")
+    f = ufun('str_lt', PyStr, PyStr, z3.BoolSort())
+    terms = getattr(ctx, 'str_order_terms', None)
+    if terms is None:
+        terms = ctx.str_order_terms = []
+    for x, v in ((str_term(a), a), (str_term(b), b)):
+        if any(x.eq(t) for t, _ in terms):
+            continue
+        ctx.assume(z3.Not(f(x, x)))
+        for t, tv in terms:
+            ctx.assume(z3.And(z3.Or(f(x, t), f(t, x), x == t), z3.Not(z3.And(f(x, t), f(t, x)))))
+            if isinstance(v, str) and isinstance(tv, str):
+                ctx.assume(f(x, t) == z3.BoolVal(v < tv))
+            for u, _ in terms:
+                if not u.eq(t):
+                    ctx.assume(z3.And(z3.Implies(z3.And(f(x, t), f(t, u)), f(x, u)), z3.Implies(z3.And(f(t, x), f(x, u)), f(t, u)),
+                                      z3.Implies(z3.And(f(t, u), f(u, x)), f(t, x))))
+        terms.append((x, v))
+    return simp(f(str_term(a), str_term(b)))
 
 
 def is_same(a, b):
